@@ -73,6 +73,10 @@ def gen_cfg(g, k):
     elif sched == "cap" and sampler == "smc":
         # small caps with a demanding target so that the cap (and the rescaled minimum step) actually binds
         cfg["opts"] = {"adaptive": True, "target_efficiency": float(g.uniform(0.9, 0.97)), "max_n_steps": int(g.integers(3, 6))}
+        if k % 2 == 0:
+            # a fixed schedule cut short by the cap: the run ends at beta < 1 (and may still enlarge the final population)
+            nst = int(g.integers(4, 8))
+            cfg["opts"] = {"adaptive": False, "n_steps": nst, "max_n_steps": int(g.integers(2, nst))}
     elif sched == "floor" and sampler == "smc":
         cfg["opts"] = {"adaptive": True, "target_efficiency": float(g.uniform(0.75, 0.92)), "min_step": float(g.uniform(0.05, 0.2))}
     elif sched == "ramp":
